@@ -2223,8 +2223,32 @@ class Body:
         succs = self.succ[b]
         learn = None
         val_id = None
+        relate = None
         if t["k"] == "switch":
             p_ = op_place(t["discr"])
+            if p_ is not None and not p_[1] and (p_[0], ()) not in d:
+                # `x == K` (or `!=`) computed in this block and tested here: each answer says something about x, which a later `match x` must respect
+                for s_ in self.stmts(b):
+                    if s_[0] == "A" and s_[1] == [p_[0], []] and s_[2][0] == "bin" and s_[2][1] in ("Eq", "Ne"):
+                        a_, b2 = s_[2][2], s_[2][3]
+                        if a_[0] == "k":
+                            a_, b2 = b2, a_
+                        kv = None
+                        if b2[0] == "k":
+                            kv = b2[1].get("b") if "b" in b2[1] else b2[1].get("v")
+                            kv = int(kv) if isinstance(kv, (bool, int)) or (isinstance(kv, str) and kv.lstrip("-").isdigit()) else None
+                        if kv is not None and a_[0] in ("c", "m") and not a_[1][1] and len(t["arms"]) == 1 and int(t["arms"][0][0]) == 0:
+                            xs = [a_[1][0]]
+                            # the compared operand is usually a fresh copy of the named value: what is learnt holds for that value
+                            for s2 in self.stmts(b):
+                                if s2[0] == "A" and s2[1] == [xs[-1], []] and s2[2][0] == "use" and s2[2][1][0] in ("c", "m") and not s2[2][1][1][1]:
+                                    xs.append(s2[2][1][1][0])
+                            relate = (xs, kv, s_[2][1] == "Eq", t["arms"][0][1], t["otherwise"])
+                # a match on a value some constants of which were excluded before
+                ne_ = d.get((p_[0], ("#ne",)))
+                if ne_:
+                    keep = [tb for v_, tb in t["arms"] if (int(v_) if isinstance(v_, str) else v_) not in ne_]
+                    succs = list(dict.fromkeys(keep + [t["otherwise"]]))
             if p_ is not None and not p_[1] and (p_[0], ()) in d:
                 val = d[(p_[0], ())]
                 if isinstance(val, tuple) and val and val[0] == "sym":
@@ -2253,6 +2277,16 @@ class Body:
             if learn is not None and s_ in learn:
                 d2 = dict(d)
                 d2[("K", val_id)] = learn[s_]
+                out.append((s_, frozenset(d2.items())))
+            elif relate is not None and relate[3] != relate[4] and s_ in (relate[3], relate[4]):
+                xs, kv, is_eq, f_edge, t_edge = relate
+                holds = (s_ == t_edge) == is_eq      # on this edge `x == K` holds
+                d2 = dict(d)
+                for x_ in xs:
+                    if holds:
+                        d2[(x_, ())] = kv
+                    else:
+                        d2[(x_, ("#ne",))] = tuple(sorted(set(d2.get((x_, ("#ne",)), ())) | {kv}))
                 out.append((s_, frozenset(d2.items())))
             else:
                 out.append((s_, env2))
